@@ -302,9 +302,15 @@ struct Worker {
 		Json plan = plan0;
 		std::string want = vclass(viol0);
 		int runs = 0;
+		std::unordered_set<uint64_t> tried;
+		tried.insert(fnv_str(plan0.dump()));
 		auto test = [&](Json cand) -> bool {
 			if (runs >= budget) return false;
 			if (!eng->fixup(cand)) return false;
+			// a candidate must be strictly simpler (fixup may re-add closing operations) and new
+			std::string cd = cand.dump(), pd = plan.dump();
+			if (cd == pd || cand.at("ops").size() > plan.at("ops").size()) return false;
+			if (!tried.insert(fnv_str(cd)).second) return false;
 			runs++;
 			Json v = evaluate(cand);
 			if (is_violation(v) && vclass(v) == want) { plan = cand; return true; }
